@@ -98,7 +98,8 @@ CLAIMS.update({
         'the content is representable (numeric, alphanumeric, byte, kanji, hanzi - packing loops cut at loop contracts), refused with ValueError otherwise, '
         'no IndexError; normalize_mode spellings; mode/version availability (ISO Table 2) in is_mode_supported and encode.',
    note='Trusted: pyvc with explicit quantifier instantiation + z3; axioms for bytes.isdigit and character-class regular expressions; spec/modes.py; '
-        'text -> bytes conversion by CPython codecs is uninterpreted (any byte string may result).',
+        'text -> bytes conversion by CPython codecs is uninterpreted (any byte string may result). If a change takes is_kanji / is_alphanumeric / find_mode out of '
+        'the verifier\'s reach (contract no longer attaches), a BOUNDED native stand-in (all 65536 byte pairs for is_kanji) decides violation vs undecided; never counted as proved.',
    technique='contract-based deductive verification: AST symbolic execution over symbolic byte arrays, loop invariants, explicit instantiation, z3',
    design='4/C07'),
 })
